@@ -12,7 +12,7 @@ def convert2Checked (store : Store) (W2 : World) (fuel : Nat) (root : KVs) : FR 
   schemaStage store fuel "config/2/config-min" (.map root)
   schemaStage store fuel "config/2/config-pre-include" (.map root)
   let mv ← req "metadata" root
-  let m1 ← procInclude W2 fuel [] .meta2 mv
+  let m1 ← procIncludeChecked store W2 fuel [] .meta2 mv
   let root1 := kvSet "metadata" m1 root
   schemaStage store fuel "config/2/config-pre-field-type-expansion" (.map root1)
   let mnode ← asMap "metadata" m1
